@@ -36,7 +36,7 @@ class C14(BaseCheck):
   REQUIRED_ANCHORS = ANCHORS
   REQUIRED_CLASSES = ('outcome:value', 'outcome:declared-exc', 'outcome:declared-exc-not-first', 'outcome:app-exc', 'outcome:void',
                       'iface:hello', 'iface:verif', 'iface:ext', 'iface:leaf', 'chunk:1cut', 'chunk:2cut', 'chunk:kcut',
-                      'text:nonascii', 'text:empty', 'concurrent', 'two-services', 'short-sends', 'alternating-outcomes', 'call:positional-and-keyword', 'call:keyword-only', 'reply:slow-or-pausing',
+                      'text:nonascii', 'text:empty', 'concurrent', 'two-services', 'short-sends', 'alternating-outcomes', 'call:positional-and-keyword', 'call:keyword-only', 'reply:slow-or-pausing', 'concurrent:interleaved-pieces',
                       'text:over-a-mebibyte')
   ASSUMPTIONS = ('interfaces: the repository\'s hello.Hello plus a hand-written module in the shape the '
                  'Thrift compiler emits (py:dynamic); no Thrift compiler is available offline',)
@@ -281,6 +281,11 @@ class C14(BaseCheck):
     if good and expected[0] == 'value' and idx % 3 == 0:
       classes.add('concurrent')
       plan['chunks'] = None
+      if (idx // 3) % 2 == 1:
+        # every reply comes in pieces a few milliseconds apart: the pieces of the concurrent calls'
+        # replies (each on its own pooled connection) interleave in time
+        classes.add('concurrent:interleaved-pieces')
+        plan['chunks'] = [(rng.randint(1, 9), 0.004) for _ in range(rng.randint(1, 3))]
       plan['delay'] = rng.choice([0.02, 0.2])
       client2 = Thrift.NewClient(Iface, 'tcp://th:%d' % self.port, timeout=30)
       n0 = len(srv.requests)
